@@ -1133,6 +1133,35 @@ def np_where(I, args, kw):
     return (out,)
 
 
+@model(np.flatnonzero)
+def np_flatnonzero(I, args, kw):
+    """np.flatnonzero(mask) == np.where(mask)[0] for a 1-D boolean array"""
+    return np_where(I, [args[0]], {})[0]
+
+
+@model(np.compress)
+def np_compress(I, args, kw):
+    """np.compress(mask, a, axis=0) == a[mask] for a 1-D boolean mask over the first axis"""
+    cond, a = args[0], args[1]
+    axis = kw.get("axis", args[2] if len(args) > 2 else None)
+    a = as_arr(I, I.unwrap(a))
+    if axis not in (0,) and not (axis is None and a.ndim == 1):
+        raise Unsupported("np.compress on an axis other than 0")
+    theory.use("T-np.compress(mask, a, axis=0) == a[mask]")
+    return getitem(I, a, as_arr(I, I.unwrap(cond)))
+
+
+@model(np.column_stack)
+def np_column_stack(I, args, kw):
+    """np.column_stack((a, b, ...)) == np.c_[a, b, ...] for 1-D arrays of equal length"""
+    seq = args[0]
+    parts = tuple(seq.items) if isinstance(seq, PList) else tuple(seq)
+    if not all(isinstance(I.unwrap(x), Arr) and I.unwrap(x).ndim == 1 for x in parts):
+        raise Unsupported("np.column_stack of blocks that are not 1-D arrays")
+    theory.use("T-np.column_stack of 1-D arrays == np.c_ of them")
+    return np_c_getitem(I, tuple(I.unwrap(x) for x in parts))
+
+
 @model(np.sum)
 def np_sum(I, args, kw):
     a = as_arr(I, I.unwrap(args[0]))
